@@ -23,8 +23,10 @@ def run(tier, seed):
         # plus every failing patch with two entries from the D<=2 space (a cleanly applied create/delete/rename/... that
         # has to be undone because a sibling entry fails)
         series += [s for s in tq.enumerate_series(2, 2, allow_after_failure=1) if any((not p.ok()) and len(p.fps) >= 2 for p in s)]
+        # plus chains of three file patches over f and the name it may be renamed to / re-created as (Q<=3, D<=1)
+        series += [s for s in tq.enumerate_series(3, 1, allow_after_failure=1, plain_files={'f', 'n'}) if sum(len(p.fps) for p in s) == 3][::2]
         cfgs = [c for c in configs(tier) if c['backup'] != 'onfail']
-        bounds = 'Q<=2 file patches, D<=1 deviation; D<=2 for failing patches with two entries'
+        bounds = 'Q<=2 file patches, D<=1 deviation; D<=2 for failing patches with two entries; every second chain with Q=3, D<=1 over the files f and n'
     else:
         series = tq.with_patch_options(tq.enumerate_series(3, 1, allow_after_failure=1), 1) + tq.with_patch_options(tq.enumerate_series(2, 2, allow_after_failure=1), 2)
         cfgs = configs(tier)
